@@ -81,7 +81,7 @@ func fieldSig(n *refmodel.Node) string {
 var fault struct{ armed, fired bool }
 
 func body(r *ev.Run) {
-	r.Rule("seeded random histories with field extremes (int32 version corners and random, uint32 nonce/bits corners and random, timestamps over the whole uint32 epoch range, random 32-byte merkle roots and parents) incl. forks, orphans, late parents, reorganisations, duplicates; half of the headers delivered as bytes of a `headers` message through the real wire decoder (as the sync engines receive them), half through Chains.Add directly; restarts (close + database.Init) at seeded points and at the end; a fifth of the histories in a non-UTC process time zone; in half of the histories one submission in 15 or 40 has its INSERT fail at the repository seam (the header is not stored; its child typically follows at once; in half of these the header is delivered again after the next one) - after a failed INSERT the chain-state label is left out of the comparison for the rest of that history. Plus stores of 501..1600 longest-chain headers (side branches included) exported and imported by the real start-up path (prepared_db), compared row by row with the model, extended by ingestion and restarted. Plus fresh stores configured for testnet / regtest / simnet (genesis row derived from that network's genesis block, a few headers on top). After every submission: full-table comparison with independently computed hash/height/work/cumulative work/fields, immutability monitor (every column but header_state byte-identical, no row vanishes), round trip of the new header through Headers.GetHeaderByHash, of its parent through FindPreviousHeader, of its ancestors through GetHeaderAncestorsByHash(…, genesis) (every field incl. work and cumulative work) and GET /chain/header/{hash}, /chain/header/state/{hash}. distinct = distinct (version class, time class, nonce class, bits class, parent relation) cells of stored headers; non-trivial = all of them (each cell is a distinct field-corner combination). Plus stores filled by ingestion after a refused first start (import of a prepared file whose block at the newest checkpoint height has another hash) and a plain restart on the same database file.")
+	r.Rule("seeded random histories with field extremes (int32 version corners and random, uint32 nonce/bits corners and random, timestamps over the whole uint32 epoch range, random 32-byte merkle roots and parents) incl. forks, orphans, late parents, reorganisations, duplicates; half of the headers delivered as bytes of a `headers` message through the real wire decoder (as the sync engines receive them), half through Chains.Add directly; restarts (close + database.Init) at seeded points and at the end; a fifth of the histories in a non-UTC process time zone; in half of the histories one submission in 15 or 40 has its INSERT fail at the repository seam (the header is not stored; its child typically follows at once; in half of these the header is delivered again after the next one) - after a failed INSERT the chain-state label is left out of the comparison for the rest of that history. Plus stores of 501..1600 longest-chain headers (side branches included) exported and imported by the real start-up path (prepared_db), compared row by row with the model, extended by ingestion and restarted. Plus fresh stores configured for testnet / regtest / simnet (genesis row derived from that network's genesis block, a few headers on top). After every submission: full-table comparison with independently computed hash/height/work/cumulative work/fields, immutability monitor (every column but header_state byte-identical, no row vanishes), round trip of the new header through Headers.GetHeaderByHash, of its parent through FindPreviousHeader, of its ancestors through GetHeaderAncestorsByHash(…, genesis) and of the rows around its height through GetHeadersByHeight (every field incl. work and cumulative work) and GET /chain/header/{hash}, /chain/header/state/{hash}. distinct = distinct (version class, time class, nonce class, bits class, parent relation) cells of stored headers; non-trivial = all of them (each cell is a distinct field-corner combination). Plus stores filled by ingestion after a refused first start (import of a prepared file whose block at the newest checkpoint height has another hash) and a plain restart on the same database file.")
 	r.Assume("reference arithmetic in refmodel (cross-checked exhaustively by C19)", "SQLite only")
 	r.Require("restarts", 5)
 	r.Require("headers_stored", 500)
@@ -376,6 +376,29 @@ func runHistory(r *ev.Run, st *rig.Stack, caseID string, hist gen.History, httpA
 					}
 				}
 				r.Count("ancestor_path_reads", 1)
+			}
+		}
+		// ... and as one of several rows of a height-range read (forks put two rows at one height next to each other)
+		if n.Connected && i%5 == 0 {
+			from := int(n.Height) - 2
+			if from < 0 {
+				from = 0
+			}
+			if rows, err := st.Svc.Headers.GetHeadersByHeight(from, 4); err == nil {
+				for _, g := range rows {
+					if g == nil {
+						continue
+					}
+					gn := m.Nodes[refmodel.Hash(g.Hash)]
+					if gn == nil {
+						continue // C04 decides which headers belong in the window
+					}
+					if bad := eqHeader(g, gn); bad != "" {
+						r.Violate("height-range-read|field|"+bad, fmt.Sprintf("GetHeadersByHeight(%d, 4) returned %s (height %d) with a wrong %s: %+v", from, gn.Hash, gn.Height, bad, g), caseID, detail(i))
+						return
+					}
+				}
+				r.Count("height_range_reads", 1)
 			}
 		}
 		// HTTP round trip
